@@ -101,3 +101,21 @@ Example C06_source_laplacian_nonvacuous : let g := [[0;2;1];[2;0;1];[1;1;0]] in
                CFLaplacian_get_matrix_entry [0;1;2]%nat LL 0%nat 3%nat = PyExn tt
   | PyExn _ => False end.
 Proof. vm_compute. repeat split. Qed.
+(* the reduced Laplacian get_reduced_matrix(q), translated from the CURRENT source (the read laplacian[v][w] is 0 for an absent entry because - and only while - the
+   constructor's rows are defaultdict(int) in the current source): a row for every vertex but q, a column for every vertex but q, each entry lap_entry g v w; nothing for q,
+   nothing for a name that is not a vertex; never refused; for every order in which the vertex set is iterated *)
+Theorem C06_source_reduced_matrix : forall g vs so LL q, rep_vset (nv g) vs -> (forall l, Permutation.Permutation (so l) l) -> rep_lap LL g ->
+  exists RR, CFLaplacian_get_reduced_matrix LL vs so q = PyOk RR /\
+  forall u, if Nat.ltb u (nv g) && negb (Nat.eqb u q)
+            then exists row, d_find u RR = Some row /\ forall w, d_find w row = if Nat.ltb w (nv g) && negb (Nat.eqb w q) then Some (lap_entry g u w) else None
+            else d_find u RR = None.
+Proof. intros g vs so LL q Hvs Hso HL. eapply get_reduced_matrix_refines; eassumption. Qed.
+Print Assumptions C06_source_reduced_matrix.
+Example C06_source_reduced_nonvacuous : let g := [[0;2;1];[2;0;1];[1;1;0]] in
+  match CFLaplacian__construct_matrix [0;1;2]%nat (dict_of_div [3;3;2]) (dict_of_graph g) (fun l => rev l) with
+  | PyOk LL => match CFLaplacian_get_reduced_matrix LL [0;1;2]%nat (fun l => rev l) 1%nat with
+               | PyOk RR => d_find 1%nat RR = None /\ option_map (d_find 2%nat) (d_find 0%nat RR) = Some (Some (-1)) /\ option_map (d_find 1%nat) (d_find 0%nat RR) = Some None /\
+                            option_map (d_find 2%nat) (d_find 2%nat RR) = Some (Some 2)
+               | PyExn _ => False end
+  | PyExn _ => False end.
+Proof. vm_compute. repeat split. Qed.
